@@ -283,6 +283,9 @@ impl<T> TimerThread<T> {
                 t.unpark();
             }
         }
+        // fault site: the caller is descheduled right after arming the timer
+        #[cfg(may_verif)]
+        crate::verif::event(2);
         h
     }
 
